@@ -20,7 +20,17 @@ for l in open(sys.argv[1]):
     if sig in old and msg is None:
         new[sig] = old[sig]; continue
     msg = msg or ''
-    if 'NotFoundErr' in msg: c = 'A'
+    nb = None
+    if 'torn_append' in label:
+        # a torn append lies between the states of pre_append and post_sync of the same flush call: the class is
+        # that of the neighbour recorded with the same clause; without such a neighbour it needs triage by hand
+        for x in ('pre_append', 'post_sync'):
+            n = "C09;scenario=%s:%s;crash=aof.flush.%s#%s;%s" % (world, scen, x, occ, clause)
+            if n in old: nb = old[n]['class']
+        if nb is None:
+            print("NO NEIGHBOUR, triage by hand:", sig, msg[:160]); continue
+    if nb: c = nb
+    elif 'NotFoundErr' in msg: c = 'A'
     elif scen in ('reorg_with_spends', 'header_only_reorg') and clause == 'reopen_failed': c = 'C'
     elif scen == 'compaction' or 'replace' in label or 'write_tmp' in label or clause.startswith('redelivery') or clause.startswith('reopened_state'): c = 'D'
     elif scen == 'compaction_then_block': c = 'D'
